@@ -225,6 +225,12 @@ def run_files(files, options):
 # ----------------------------------------------------------------------------- end to end
 
 def make_jobs(rng, n, navinfo):
+    corpus = core.VERIF / "corpus" / "C09" / "jobs.json"
+    saved = json.load(open(corpus))["jobs"] if corpus.exists() else []
+    return [{"spec": j["spec"], "rseed": j["rseed"], "nav": navinfo} for j in saved] + _make_jobs(rng, n, navinfo)
+
+
+def _make_jobs(rng, n, navinfo):
     jobs = []
     # systematic layer: every project shape with sources shown and hidden
     for sh in P.SHAPES:
@@ -246,11 +252,18 @@ def bools(l):
 
 
 def end_to_end(chk, rng, n, x):
-    fields = {"counts": x["counts"], "flags": x["flags"], "nums": x["nums"]}
-    navinfo = {"fields": fields, "links": [list(l) for l in x["links"]], "list_pages": [list(p) for p in x["list_pages"]]}
+    navinfo = fields = None
+    if x is not None:
+        fields = {"counts": x["counts"], "flags": x["flags"], "nums": x["nums"]}
+        navinfo = {"fields": fields, "links": [list(l) for l in x["links"]],
+                   "list_pages": [list(p) for p in x["list_pages"]]}
     jobs = make_jobs(rng, n, navinfo)
     with ProcessPoolExecutor(max_workers=core.NCPU - 2) as ex:
-        results = list(ex.map(R.run_spec, jobs, chunksize=2))
+        try:
+            results = list(ex.map(R.run_spec, jobs, chunksize=2, timeout=1500))
+        except Exception as e:  # noqa
+            chk.obligation("end-to-end-runs", False, f"{type(e).__name__}: {e}")
+            return
     nav_cases, nav_meta = [], []
     tot = {"pages": 0, "links": 0, "internal": 0, "fragments": 0, "svg": 0, "search_urls": 0, "external": 0}
     known_hits, shapes, optcombos, errors = {}, set(), set(), 0
@@ -337,21 +350,29 @@ def run(chk):
     quick = chk.tier == "quick"
     try:
         x = load_translator().extract()
-    except Exception as e:  # noqa  (already a broken obligation through chk.translate)
+        chk.extra["navconds"] = {"fields": len(x["counts"]) + len(x["flags"]) + len(x["nums"]),
+                                 "list_pages": len(x["list_pages"]), "nav_links": len(x["links"])}
+    except Exception as e:  # noqa  (already a broken obligation through chk.translate): search goes on without NavConds
         chk.obligation("translator-extract", False, f"{type(e).__name__}: {e}")
-        return
-    chk.extra["navconds"] = {"fields": len(x["counts"]) + len(x["flags"]) + len(x["nums"]),
-                             "list_pages": len(x["list_pages"]), "nav_links": len(x["links"])}
-    cases = unit_cases(chk, rng, 240 if quick else 4000)
-    cases += url_cases(chk, rng, 4 if quick else 40)
+        x = None
+    cases = unit_cases(chk, rng, 300 if quick else 4000)
+    cases += url_cases(chk, rng, 6 if quick else 40)
+    byf = {}
+    for _, d in cases:
+        byf[d["f"]] = byf.get(d["f"], 0) + 1
+    chk.extra["cases_by_function"] = byf
     judge_cases(chk, cases, "URL function (relpath / project_url / relative_url / get_url / docstring link)")
-    end_to_end(chk, rng, 110 if quick else 1600, x)
+    end_to_end(chk, rng, 200 if quick else 1600, x)
+    if not quick:
+        chk.coqchk(["Ford.Props.C09"])
     for payload in getattr(chk, "_c09_deferred", []):
         chk.violation("broken-correspondence", payload, False)
     # recorded findings: replay each witness on the implementation
+    chk.extra["witness_replay"] = {}
     for key, (files, options, pred) in WITNESSES.items():
         probs, err = run_files(files, options)
         still = bool(pred(probs, err))
+        chk.extra["witness_replay"][key] = "still fails" if still else "no longer fails"
         if not chk.known(key, still):
             chk.notes.append(f"witness {key} has no open entry in known_findings.d/C09.json")
 
